@@ -60,6 +60,7 @@ type c19Case struct {
 	Style   int    `json:"style"`
 	Name    string `json:"name"`    // -nam value; "" = flag omitted (cim2cas then uses the -cim argument)
 	CimName string `json:"cimname"` // file name of the input (relative, cwd = its directory)
+	Stale   int    `json:"stale"`   // > 0: the output files already exist and hold this many junk bytes
 }
 
 func image(c *c19Case) []byte {
@@ -115,6 +116,14 @@ func run(c *c19Case) string {
 	img := image(c)
 	if err := os.WriteFile(filepath.Join(dir, c.CimName), img, 0o644); err != nil {
 		return "HARNESS: " + err.Error()
+	}
+	if c.Stale > 0 {
+		junk := bytes.Repeat([]byte{0xE5}, c.Stale)
+		for _, n := range []string{"out.bin", "out.cas"} {
+			if err := os.WriteFile(filepath.Join(dir, n), junk, 0o644); err != nil {
+				return "HARNESS: " + err.Error()
+			}
+		}
 	}
 	off := c.Off
 	var offArgs []string
@@ -225,7 +234,7 @@ func TestC19(t *testing.T) {
 	}()
 	col.Rule = "cim2bin and cim2cas built from the current tree and executed on rapid-drawn inputs: load offset (edges 0, 1, 0x8000, 0xA000, 0xFFFF and uniform; passed in decimal, 0x-hex or omitted = default 0xA000), " +
 		"image length 1..min(65536-off, 8192) plus exact-fit lengths (end = 0xFFFF, incl. 65536 bytes at offset 0), contents (hashed, container-magic / ^Z / line-end bytes, ramp), name of 0..12 printable bytes " +
-		"(0 = -nam omitted: the -cim argument is the name); oracle = independently written container encoder, output files must be byte-equal, exit status 0, input untouched; " +
+		"(0 = -nam omitted: the -cim argument is the name; 1/4 with multi-byte characters, the field is six bytes), output files fresh or already existing with junk of another length; oracle = independently written container encoder, output files must be byte-equal, exit status 0, input untouched; " +
 		"non-trivial = length >= 2 and (offset not the default or name length != 6); distinct by hash(case)"
 	rapid.Check(t, func(t *rapid.T) {
 		var c c19Case
@@ -249,6 +258,13 @@ func TestC19(t *testing.T) {
 		c.Style = rapid.IntRange(0, 2).Draw(t, "style")
 		printable := rapid.StringOfN(rapid.RuneFrom(nil, rapidPrintable()), 0, 12, -1)
 		c.Name = printable.Draw(t, "name")
+		if rapid.IntRange(0, 3).Draw(t, "nonascii") == 0 {
+			// names are byte strings for the container: multi-byte characters must still give a six-byte field
+			c.Name = rapid.StringOfN(rapid.RuneFrom([]rune("aZ9_éÿßテスﾄ漢€")), 1, 8, -1).Draw(t, "name8")
+		}
+		if rapid.IntRange(0, 2).Draw(t, "stale") == 0 {
+			c.Stale = rapid.SampledFrom([]int{1, 7, 24, 100000, 70000}).Draw(t, "staleLen")
+		}
 		if len(c.Name) > 0 && c.Name[0] == '-' {
 			c.Name = "N" + c.Name[1:]
 		}
@@ -267,6 +283,15 @@ func TestC19(t *testing.T) {
 		}
 		if len(c.Name) > 6 {
 			col.Label("name-truncated")
+		}
+		if c.Stale > 0 {
+			col.Label("output-file-existed")
+		}
+		for _, r := range c.Name {
+			if r > 0x7f {
+				col.Label("non-ascii-name")
+				break
+			}
 		}
 		col.Label("off-form:" + c.OffForm)
 		if c.Len >= 2 && (c.Off != 0xA000 || len(c.Name) != 6) {
